@@ -649,7 +649,14 @@ func (rw *rewriter) goStmt(g *ast.GoStmt) string {
 	var sb strings.Builder
 	sb.WriteString("{ ")
 	fv := rw.tmp("f")
-	fmt.Fprintf(&sb, "%s := %s; ", fv, rw.render(call.Fun))
+	if fid, ok := call.Fun.(*ast.Ident); ok {
+		if _, isBuiltin := rw.info.Uses[fid].(*types.Builtin); isBuiltin {
+			fv = fid.Name
+		}
+	}
+	if fv != rw.text(call.Fun) {
+		fmt.Fprintf(&sb, "%s := %s; ", fv, rw.render(call.Fun))
+	}
 	var args []string
 	for _, a := range call.Args {
 		tv := rw.info.Types[a]
